@@ -27,6 +27,13 @@ claimed = {
              "(405 and OPTIONS) equal the set of methods not answered 404/405, outside the recorded finding classes.", design="5 (C17)"),
  "C18": dict(text="Twin containers (CurlyRouter, RouterJSR311) on tables of the common fragment get the same symbolic request; the solver proves equal route, parameter values, status and Allow "
              "set outside the recorded input classes (empty segment / no leading slash, newline byte).", design="5 (C18)"),
+ "C05": dict(text="Real Response.EntityWriter, sortedMimes, insertMime, accessorAt, writeJSON/writeXML header logic and Route.matchesAccept run on a flat symbolic Accept header (marshalling stubbed, "
+             "map iteration order an explicit choice): the solver proves that an admitted request is never answered 406 by the writer, that Content-Type is a produced registered type, equals "
+             "the reference choice (whitespace-insensitive parse, q descending, stable, */* = first producible) wherever the reference is definite, and that the decision taken twice with "
+             "independent map orders agrees.", design="5 (C05)"),
+ "C15": dict(text="Every sequence (bounded length) of the Response writing calls over a writer that starts failing at a symbolic call and accepts a symbolic prefix: the solver proves "
+             "StatusCode() = status received, ContentLength() = bytes accepted (before coding when a CompressingResponseWriter sits underneath) and that the failing call returns the writer's error.",
+             design="5 (C15)"),
  "C06": dict(text="Enumerated filter counts per level and entry modes; each generated filter's behaviour (pass on / stop, replace the request-response pair, set an attribute, http middleware) "
              "is a symbolic bit; the solver proves on every path that the log of filter and handler invocations equals the reference sequence and that the pair and attributes passed on are "
              "the ones received, also after an earlier request on the same container.", design="5 (C06)"),
